@@ -44,6 +44,14 @@ def bind_repo():
     got = os.path.dirname(os.path.dirname(os.path.abspath(bromelia.__file__)))
     if got != repo:
         raise HarnessError(f"bromelia imported from {got}, expected {repo}")
+    # every module of the package, so that all dictionary and command classes exist in every check
+    import importlib
+    import pkgutil
+    for m in pkgutil.walk_packages(bromelia.__path__, "bromelia."):
+        try:
+            importlib.import_module(m.name)
+        except ImportError:
+            pass    # optional third-party dependency of a module (e.g. pysctp)
     return repo
 
 
